@@ -385,8 +385,9 @@ func (n *ReconcileNode) syncWithAPI(ctx context.Context, node *networkv1beta1.No
 			log.Info("sync eni with remote, old eni merged")
 			// exist record
 			// only ip is updated
-			mergeIPMap(log, remote.IPv4, crENI.IPv4)
-			mergeIPMap(log, remote.IPv6, crENI.IPv6)
+			// a family the record has no address of is a nil map: the merged map has to be stored back
+			crENI.IPv4 = mergeIPMap(log, remote.IPv4, crENI.IPv4)
+			crENI.IPv6 = mergeIPMap(log, remote.IPv6, crENI.IPv6)
 
 			// nb(l1b0k): use Deleting status in cr for eni we don't wanted
 			if crENI.Status != aliyunClient.ENIStatusDeleting {
